@@ -69,8 +69,16 @@ theorem rep_check :
         St.all.all fun st => progAgn n.toUInt8 (repOf n.toUInt8) (Gen.prog st))) = true := by
   decide +kernel
 
+/-- the input classes are real bytes -/
+theorem inputs_nonzero : (reachInputs.all fun r => r != 0) = true := by decide
+
 theorem table_ok : TableOk Gen.prog reachInputs reachAt where
   closed_ := table_closed
+  nz := by
+    intro r hr
+    have := inputs_nonzero
+    simp only [List.all_eq_true] at this
+    simpa using this r hr
   rep := by
     intro c hc
     have h := rep_check
@@ -83,25 +91,49 @@ theorem table_ok : TableOk Gen.prog reachInputs reachAt where
     · rw [hcc] at hin hall
       exact ⟨repOf c, hin, fun st => hall st (St.mem_all st)⟩
 
-theorem root_in_reach : (reachAt .stateRoot).contains ([], [], 0, true) = true := by decide
+theorem root_in_reach : (reachAt .stateRoot).contains ([], [], 0, true, [], 0) = true := by decide
 
-/-- **C12 (stack discipline), every file, every oracle, every fuel**: however a scan of a file from
-    `stateRoot` ends, it does not end in a pop of an empty step stack, a pop of an empty event
-    stack, an empty found-queue shift, or an "Ending lexeme event does not match beginning event"
-    error: begin and end events are always well nested. -/
+/-- **C12 (no crash), every file, every oracle, every fuel**: however a scan of a file from `stateRoot`
+    ends, it does not end in a crash of the scanner: no panic site of the model is reached (pop of an
+    empty step stack or event stack, empty found-queue shift, `curIndex` underflow, index outside the
+    file in a look-behind condition or a parameter value, schema reader started outside the file,
+    step functions calling each other more than 16 deep) and no "Ending lexeme event does not match
+    beginning event" error is raised. -/
+theorem C12_no_crash (env : Env) (fuel n : Nat) (f : Fault)
+    (h : (scanFrom env Gen.prog fuel n (Sc.init .stateRoot) []).2.1 = .fault f) : ¬ Crash f :=
+  (scanFrom_sound env Gen.prog reachInputs reachAt table_ok fuel n (Sc.init .stateRoot) []
+    (good_init env reachAt .stateRoot root_in_reach) (by simp)).1 f h
+
+/-- **C12 (extents), every file, every oracle, every fuel**: every lexeme the scanner reports lies
+    inside the file — `0 ≤ begin ≤ end + 1 ≤ |file|`, so `Lexeme.Value()` is a valid (possibly empty)
+    slice of the file and never the `slice bounds out of range` crash. -/
+theorem C12_lexemes_inside_file (env : Env) (fuel n : Nat) (l : Lexeme)
+    (h : l ∈ (scanFrom env Gen.prog fuel n (Sc.init .stateRoot) []).1) :
+    0 ≤ l.b ∧ l.b ≤ l.e + 1 ∧ l.e < env.size :=
+  (scanFrom_sound env Gen.prog reachInputs reachAt table_ok fuel n (Sc.init .stateRoot) []
+    (good_init env reachAt .stateRoot root_in_reach) (by simp)).2 l h
+
+/-- **C12 (stack discipline), every file, every oracle, every fuel**: in particular the scanner's two
+    stacks are used in a balanced way — begin and end events always pair up to well-nested lexemes. -/
 theorem C12_stack_discipline (env : Env) (fuel n : Nat) (f : Fault)
     (h : (scanFrom env Gen.prog fuel n (Sc.init .stateRoot) []).2.1 = .fault f) : ¬ StackFault f :=
-  scanFrom_sound env Gen.prog reachInputs reachAt table_ok fuel n (Sc.init .stateRoot) []
-    (good_init env reachAt .stateRoot root_in_reach) f h
+  fun hs => C12_no_crash env fuel n f h hs.crash
 
 /-- the same for the function the driver runs (`scanFile`) -/
 theorem C12_scanFile_stack_discipline (data : Array UInt8) (lenAt : BodyKind → Nat → LenAnswer) (f : Fault)
     (h : (scanFile data lenAt).2 = .fault f) : ¬ StackFault f :=
   C12_stack_discipline (mkEnv data lenAt) _ _ f h
 
+theorem C12_scanFile_lexemes_inside_file (data : Array UInt8) (lenAt : BodyKind → Nat → LenAnswer) (l : Lexeme)
+    (h : l ∈ (scanFile data lenAt).1) : 0 ≤ l.b ∧ l.b ≤ l.e + 1 ∧ l.e < data.size :=
+  C12_lexemes_inside_file (mkEnv data lenAt) _ _ l h
+
 /-- non-vacuity: the faults excluded are the ones the model can name, and other faults are not excluded -/
 example : StackFault (.panic "stepStack.Pop: Reading from empty stack") := Or.inl rfl
 example : StackFault (.err (.basic mismatchMsg) 3) := rfl
 example : ¬ StackFault (.err (.unexpectedChar "in x" "") 3) := id
+example : Crash (.panic "curIndex underflow") := trivial
+example : ¬ Crash (.err (.unexpectedChar "in x" "") 3) := id
+example : ¬ Crash .fuel := id
 
 end JsightVerif.Props.C12
